@@ -73,9 +73,15 @@ def condition(draw, nout: int, continuous: bool):
 
 
 @st.composite
-def param_expr(draw, nout: int):
+def param_expr(draw, nout: int, continuous: bool = False):
     i = draw(st.integers(-nout, nout - 1))
     c = draw(st.sampled_from([0.1, 0.3, -0.2, 0.25]))
+    if continuous:
+        # dyne outcomes are unbounded (the Gaussian homodyne even returns the
+        # anti-squeezed quadrature, variance ~1e8): keep the parameter bounded
+        form = draw(st.sampled_from(["{c} * (x[{i}] > 0)", "{c} * (x[{i}] < 0.5) + 0.05",
+                                     "{c} * (-1 < x[{i}] < 1)"]))
+        return form.format(i=i, c=c)
     form = draw(st.sampled_from(["x[{i}] * {c}", "{c} + x[{i}] * 0.1", "{c} * (x[{i}] + 1)",
                                  "x[{i}] / 4", "-x[{i}] * {c}", "{c} * x[{i}] ** 2"]))
     return form.format(i=i, c=c)
@@ -121,7 +127,7 @@ def adaptive_program(draw, sim: str, max_meas: int = 3, allow_postselect: bool =
                     step["when"] = draw(condition(nout, continuous))
                     step["when_lambda"] = draw(st.booleans())
                 if g["g"] in EXPR_PARAM and draw(st.integers(0, 2)) == 0:
-                    step["pexpr"] = {EXPR_PARAM[g["g"]]: draw(param_expr(nout))}
+                    step["pexpr"] = {EXPR_PARAM[g["g"]]: draw(param_expr(nout, continuous))}
                     step["pexpr_lambda"] = draw(st.booleans())
             steps.append(step)
         elif kind == "measure":
